@@ -501,3 +501,20 @@ M('c01-node-stores-lowercased-converter-name', 'C01', 'R16', F,
   "                            field.group('cname').lower(),\n")
 # negative controls (exit 0): the strip on BOTH sides; the node alone strips (every accepted name is already stripped);
 # `cname = field.group('cname')` held in a local of the constructor; `(field.group('cname') or '')` in the validator
+
+# R17 the node attributes find() answers with are stored as a group (sa-am02426)
+M('c01-override-keeps-old-uri-template', 'C01', 'R17', F,
+  "                        node.resource = resource\n                        node.uri_template = uri_template\n",
+  "                        node.resource = resource\n")
+M('c01-override-keeps-old-method-map', 'C01', 'R17', F,
+  "                        node.method_map = method_map\n                        node.resource = resource\n",
+  "                        node.resource = resource\n")
+M('c01-new-leaf-without-resource', 'C01', 'R17', F,
+  "                new_node.method_map = method_map\n                new_node.resource = resource\n",
+  "                new_node.method_map = method_map\n")
+M('c01-override-uri-template-only-when-unset', 'C01', 'R17', F,
+  "                        node.uri_template = uri_template\n",
+  "                        if node.uri_template is None:\n                            node.uri_template = uri_template\n")
+# negative controls (exit 0): the three stores reordered; one tuple assignment `node.method_map, node.resource, node.uri_template = ...`;
+# `target = node` is NOT understood (stores on two names: exit 1 is avoided because each name's group is complete only if all
+# three go through the same name -- verified: aliasing all three stores through `target` is silent)
